@@ -149,6 +149,7 @@ func checkC11(w *World, r *Report) {
 	r.floor("nested Render calls in template-loading functions", n1, 2)
 
 	checkResolvesThroughLoad(w, r, "R11.5", []string{"IncludeNode"}, "an include is answered from a per-node or per-context shortcut instead of the template the name denotes now")
+	checkChainFlattening(w, r)
 
 	// ---- R11.2 / R11.3 in IncludeNode.Render and its parts (unexported helpers with that one call
 	// site; flags may travel in a local struct of options and be tested by predicate helpers)
@@ -818,4 +819,94 @@ func errorSurelyNonNil(v ssa.Value, b *ssa.BasicBlock) bool {
 		}
 	}
 	return false
+}
+
+// checkChainFlattening — R11.7: flattening a chain of contexts keeps the inner binding.  A
+// variable is looked up innermost-first (own map, then .parent, …), which is what makes a
+// `with` variable or a loop variable shadow the includer's.  Any loop that walks a context's
+// .parent chain outwards and copies each level's variables into one map must therefore not
+// overwrite: the store has to be controlled by an absence test of the same key in the
+// destination.  (A copy made level by level in the other order is not matched by this rule.)
+func checkChainFlattening(w *World, r *Report) {
+	n := 0
+	for _, fn := range w.pkgFuncs() {
+		instrsOf(fn, func(in ssa.Instruction) {
+			mu, ok := in.(*ssa.MapUpdate)
+			if !ok {
+				return
+			}
+			// the key comes from ranging over the variable map of a context …
+			rng := rangeOfKey(mu.Key)
+			if rng == nil {
+				return
+			}
+			owner, ok := fieldLoad(rng.X, "RenderContext", "context")
+			if !ok {
+				return
+			}
+			// … that walks a parent chain: phi with an edge loading .parent of the phi itself
+			ph, ok := unspill(owner).(*ssa.Phi)
+			if !ok {
+				return
+			}
+			walks := false
+			for _, e := range ph.Edges {
+				if base, ok := fieldLoad(e, "RenderContext", "parent"); ok && unspill(base) == ssa.Value(ph) {
+					walks = true
+				}
+			}
+			if !walks {
+				return
+			}
+			n++
+			construct := "copy of an enclosing context's variables keeps inner bindings"
+			guarded := false
+			for _, c := range controllingConds(in) {
+				if lookupPresence(c, mu.Map, mu.Key) {
+					guarded = true
+				}
+			}
+			if guarded {
+				r.ok("R11.7", ssaName(fn), construct, w.posOf(in.Pos()), "the store is controlled by a presence test of the same key in the destination", true)
+			} else {
+				r.bad("R11.7", ssaName(fn), construct, w.posOf(in.Pos()), "the loop walks the .parent chain outwards and stores each level's variables unconditionally: a binding of an outer context overwrites the inner one of the same name (a `with` variable loses against the includer's, a loop variable against the template's)")
+			}
+		})
+	}
+	r.Counts["outward walks of the context chain that copy variables"] = n
+}
+
+// rangeOfKey: v is the key produced by ranging over a map; returns the Range instruction.
+func rangeOfKey(v ssa.Value) *ssa.Range {
+	v = unspill(v)
+	ex, ok := v.(*ssa.Extract)
+	if !ok || ex.Index != 1 {
+		return nil
+	}
+	nx, ok := ex.Tuple.(*ssa.Next)
+	if !ok {
+		return nil
+	}
+	rng, _ := nx.Iter.(*ssa.Range)
+	return rng
+}
+
+// lookupPresence: c is (the negation of) the comma-ok result of looking key up in map m.
+func lookupPresence(c ssa.Value, m, key ssa.Value) bool {
+	for {
+		if u, ok := c.(*ssa.UnOp); ok && u.Op == token.NOT {
+			c = u.X
+			continue
+		}
+		break
+	}
+	ex, ok := c.(*ssa.Extract)
+	if !ok || ex.Index != 1 {
+		return false
+	}
+	lk, ok := ex.Tuple.(*ssa.Lookup)
+	if !ok || !lk.CommaOk {
+		return false
+	}
+	return sameValue(unspill(lk.X), unspill(m)) && sameValue(unspill(lk.Index), unspill(key))
 }
